@@ -54,6 +54,12 @@ func Run(r *ev.Run) {
 		phase("controlled random 3w1r", func() { w.randomSchedules(r, "3w1r", 20000, 3, 1, 3, 3, 6) })
 	}
 
+	// (a') controlled schedules over the REAL lock of the directory back end: goroutines sharing one handle + a writer on a second handle
+	phase("controlled dir shared handle", func() { w.dirSchedules(r, r.Pick(30, 200)) })
+	if th {
+		phase("controlled dir exhaustive", func() { w.dirExhaustive(r, 800) })
+	}
+
 	// (b) free-running stress
 	g := r.Pick(8, 32)
 	hot := []target{{"alpha", "sym"}, {"alpha", "pair"}, {"bravo", "hmac"}}
@@ -63,6 +69,11 @@ func Run(r *ev.Run) {
 	phase("shared handle mem", func() { v2SharedHandle(r, "mem", memFactory(), g, r.Pick(40, 80)) })
 	phase("shared handle dir", func() {
 		v2SharedHandle(r, "dir", dirFactory(ksrig.ScratchDir("c17-shared")), r.Pick(8, 16), r.Pick(20, 40))
+	})
+
+	phase("shared handle with writers mem", func() { v2SharedHandleWriters(r, "mem", memFactory(), 6, 2, 2, r.Pick(15, 30)) })
+	phase("shared handle with writers dir", func() {
+		v2SharedHandleWriters(r, "dir", dirFactory(ksrig.ScratchDir("c17-shared-w")), 6, 2, 2, r.Pick(15, 30))
 	})
 
 	// (c) v1 readers
@@ -78,7 +89,8 @@ func Run(r *ev.Run) {
 	for _, c := range []string{"sched_executions_interleaved", "v2_ok_AddKey", "v2_ok_SetCurrent", "v2_ok_DestroyKey", "v2_ok_SetState", "v2_ok_ImportOW", "v2_ok_ImportNX",
 		"v2_ok_Read", "v2_ok_OpenRW", "v2_failed_AddKey", "v2_failed_SetCurrent", "v2_reader_results_consistent", "v2_final_states_checked",
 		"v2_successful_addkeys_traced_to_final_state", "v2_ring_histories_linearizable", "stress_actions_mem", "stress_actions_dir", "multiprocess_actions",
-		"shared_handle_reads_mem", "shared_handle_reads_dir", "v1_getter_results_correct", "v1_held_keys_still_intact"} {
+		"shared_handle_reads_mem", "shared_handle_reads_dir", "shared_handle_writers_actions_mem", "shared_handle_writers_actions_dir",
+		"dirsched_executions", "dirsched_directed_executions", "dirsched_executions_interleaved", "dirsched_lock_calls_seen_waiting", "v1_getter_results_correct", "v1_held_keys_still_intact"} {
 		r.RequireAtLeast(c, 1)
 	}
 	r.RequireSetAtLeast("v1_getter_x_cache", 40)
